@@ -5,19 +5,13 @@ HERE = os.path.dirname(os.path.abspath(__file__))
 VERIF = os.path.dirname(HERE)
 ALL = ["C%02d" % i for i in range(1, 21)]
 
-CLAIMED = {
- "C01": dict(
-   text="Lean 4 theorems (Props/C01.lean) over an arbitrary field and arbitrary finite shapes: every "
-        "TransferFunction operator of the model returns a well-formed system whose RatFunc-matrix semantics is "
-        "G+H, G-H, G*H, G/H, -G, G/(1-sign*H*G), block-diagonal/sub-matrix, and raises exactly when the "
-        "denominator polynomial of the mathematical result is zero; the model is tied to /repo by a differential "
-        "correspondence run of random expression trees on the real operators on every run.",
-   note="Trusted: Lean kernel + Mathlib, axioms propext/Classical.choice/Quot.sound; the hand-written model "
-        "(Model/Poly, TF, TFDyn) is validated against the implementation only on the generated cases; IEEE exactness "
-        "on small integer data; numpy.polymul/polyadd.",
-   technique="Lean 4 proof over RatFunc K + differential correspondence (model driver vs real operators)",
-   ref="7/C01"),
-}
+CLAIMED = {}
+for fn in sorted(os.listdir(os.path.join(HERE, "claims"))):
+    if fn.endswith(".json"):
+        CLAIMED[fn[:-5]] = json.load(open(os.path.join(HERE, "claims", fn)))
+NA_REASONS = {}
+if os.path.exists(os.path.join(HERE, "not_applicable.json")):
+    NA_REASONS = json.load(open(os.path.join(HERE, "not_applicable.json")))
 
 def main():
     checks = []
@@ -36,7 +30,7 @@ def main():
             "level_note": c["note"],
             "technique": c["technique"],
         })
-    na = [{"property_id": pid, "reason": "not yet built in this round (planned, see DESIGN.md §7); no check is registered, so nothing is claimed"}
+    na = [{"property_id": pid, "reason": NA_REASONS.get(pid, "not yet built (planned, see DESIGN.md §7); no check is registered, so nothing is claimed")}
           for pid in ALL if pid not in CLAIMED]
     man = {
         "version": 1,
